@@ -168,7 +168,7 @@ def to_puzz_link_url(height, width, pos):
 
 
 def parse_puzz_link_url(url):
-    height, width, body = url.split("/")[-3:]
+    width, height, body = url.split("/")[-3:]
     height = int(height)
     width = int(width)
 
